@@ -253,3 +253,77 @@ package decorator
 //@ loop 2 invariant maps: r.mapsInv()
 //@ loop 3 invariant inv: r.inv()
 //@ loop 3 invariant maps: r.mapsInv()
+
+// ---------------------------------------------------------------------------------------------
+// decorateNode (decorator-node-generated.go), one verification unit per go/ast node type.
+
+//@ pred (f *fileDecorator) dmapsInv() bool {
+//@   f.Decorator != nil && f.Dst.Nodes != nil && f.Ast.Nodes != nil && f.before != nil && f.after != nil && f.decorations != nil &&
+//@   (forall a ast.Node :: {has(f.Dst.Nodes, a)} has(f.Dst.Nodes, a) ==> ref(a) != 0 && allocated(ref(a)) && ref(f.Dst.Nodes[a]) != 0 && allocated(ref(f.Dst.Nodes[a]))) &&
+//@   (forall d dst.Node :: {has(f.Ast.Nodes, d)} has(f.Ast.Nodes, d) ==> ref(d) != 0 && allocated(ref(d)))
+//@ }
+
+//@ pure func hasAst(f *fileDecorator, d dst.Node) bool { has(f.Ast.Nodes, d) }
+
+//@ func (f *fileDecorator) decorateNode
+//@ requires maps: f.dmapsInv()
+//@ tracks maps: f.dmapsInv()
+//@ tracks dst_map_grows: forall k ast.Node :: {has(f.Dst.Nodes, k)} old(has(f.Dst.Nodes, k)) ==> has(f.Dst.Nodes, k) && f.Dst.Nodes[k] == old(f.Dst.Nodes[k])
+//@ tracks ast_map_grows: forall k dst.Node :: {has(f.Ast.Nodes, k)} old(has(f.Ast.Nodes, k)) ==> has(f.Ast.Nodes, k) && f.Ast.Nodes[k] == old(f.Ast.Nodes[k])
+//@ modifies map(ast.Node, dst.Node), map(dst.Node, ast.Node), map(*ast.Object, *dst.Object), map(*dst.Object, *ast.Object), map(*ast.Scope, *dst.Scope), map(*dst.Scope, *ast.Scope), newobjects
+//@ ensures maps: f.dmapsInv()
+//@ ensures mapped: err == nil ==> has(f.Dst.Nodes, n) && f.Dst.Nodes[n] == result && ref(result) != 0
+//@ ensures mapped_back: err == nil && !old(has(f.Dst.Nodes, n)) ==> has(f.Ast.Nodes, result) && f.Ast.Nodes[result] == n
+//@ ensures error_result: err != nil ==> result == nil
+//@ ensures dst_map_grows: forall k ast.Node :: {has(f.Dst.Nodes, k)} old(has(f.Dst.Nodes, k)) ==> has(f.Dst.Nodes, k) && f.Dst.Nodes[k] == old(f.Dst.Nodes[k])
+//@ ensures ast_map_grows: forall k dst.Node :: {has(f.Ast.Nodes, k)} old(has(f.Ast.Nodes, k)) ==> has(f.Ast.Nodes, k) && f.Ast.Nodes[k] == old(f.Ast.Nodes[k])
+//@ ensures fresh_unless_known: err == nil && !old(has(f.Dst.Nodes, n)) ==> !wasAllocated(ref(result))
+//@ foreach invariant count: 0 <= $i && $i <= len($src)
+//@ foreach invariant length: len($dst) == $i
+//@ foreach invariant elems: forall j int :: 0 <= j && j < $i ==> has(f.Dst.Nodes, $src[j]) && f.Dst.Nodes[$src[j]] == $dst[j]
+//@ foreach invariant backing: $i == 0 ? $dst == nil : (!wasAllocated(arr($dst)) && arr($dst) >= entry(allocCounter()) && allocated(arr($dst)))
+//@ foreach invariant old_rows: rowsKeptSinceLoopEntry()
+//@ foreach invariant maps: f.dmapsInv()
+//@ foreach invariant dst_map_grows: forall k ast.Node :: {has(f.Dst.Nodes, k)} entry(has(f.Dst.Nodes, k)) ==> has(f.Dst.Nodes, k) && f.Dst.Nodes[k] == entry(f.Dst.Nodes[k])
+//@ foreach invariant ast_map_grows: forall k dst.Node :: {has(f.Ast.Nodes, k)} entry(has(f.Ast.Nodes, k)) ==> has(f.Ast.Nodes, k) && f.Ast.Nodes[k] == entry(f.Ast.Nodes[k])
+//@ case FuncDecl
+//@ assumes signature_not_shared: !has(f.Dst.Nodes, cast(n, type(*ast.FuncDecl)).Type)
+//@ assumes signature_present: cast(n, type(*ast.FuncDecl)).Type != nil
+//@ case Package
+//@ loop 1 invariant maps: f.dmapsInv()
+//@ loop 1 invariant dst_map_grows: forall k ast.Node :: {has(f.Dst.Nodes, k)} entry(has(f.Dst.Nodes, k)) ==> has(f.Dst.Nodes, k) && f.Dst.Nodes[k] == entry(f.Dst.Nodes[k])
+//@ loop 1 invariant ast_map_grows: forall k dst.Node :: {has(f.Ast.Nodes, k)} entry(has(f.Ast.Nodes, k)) ==> has(f.Ast.Nodes, k) && f.Ast.Nodes[k] == entry(f.Ast.Nodes[k])
+//@ loop 2 invariant maps: f.dmapsInv()
+//@ loop 2 invariant dst_map_grows: forall k ast.Node :: {has(f.Dst.Nodes, k)} entry(has(f.Dst.Nodes, k)) ==> has(f.Dst.Nodes, k) && f.Dst.Nodes[k] == entry(f.Dst.Nodes[k])
+//@ loop 2 invariant ast_map_grows: forall k dst.Node :: {has(f.Ast.Nodes, k)} entry(has(f.Ast.Nodes, k)) ==> has(f.Ast.Nodes, k) && f.Ast.Nodes[k] == entry(f.Ast.Nodes[k])
+
+// The callees of decorateNode (each is, or will be, a verification unit of its own).
+//@ func (f *fileDecorator) decorateObject
+//@ requires maps: f.dmapsInv()
+//@ modifies map(ast.Node, dst.Node), map(dst.Node, ast.Node), map(*ast.Object, *dst.Object), map(*dst.Object, *ast.Object), map(*ast.Scope, *dst.Scope), map(*dst.Scope, *ast.Scope), newobjects
+//@ ensures maps: f.dmapsInv()
+//@ ensures error_result: err != nil ==> result == nil
+//@ ensures dst_map_grows: forall k ast.Node :: {has(f.Dst.Nodes, k)} old(has(f.Dst.Nodes, k)) ==> has(f.Dst.Nodes, k) && f.Dst.Nodes[k] == old(f.Dst.Nodes[k])
+//@ ensures ast_map_grows: forall k dst.Node :: {has(f.Ast.Nodes, k)} old(has(f.Ast.Nodes, k)) ==> has(f.Ast.Nodes, k) && f.Ast.Nodes[k] == old(f.Ast.Nodes[k])
+
+//@ func (f *fileDecorator) decorateScope
+//@ requires maps: f.dmapsInv()
+//@ modifies map(ast.Node, dst.Node), map(dst.Node, ast.Node), map(*ast.Object, *dst.Object), map(*dst.Object, *ast.Object), map(*ast.Scope, *dst.Scope), map(*dst.Scope, *ast.Scope), newobjects
+//@ ensures maps: f.dmapsInv()
+//@ ensures error_result: err != nil ==> result == nil
+//@ ensures dst_map_grows: forall k ast.Node :: {has(f.Dst.Nodes, k)} old(has(f.Dst.Nodes, k)) ==> has(f.Dst.Nodes, k) && f.Dst.Nodes[k] == old(f.Dst.Nodes[k])
+//@ ensures ast_map_grows: forall k dst.Node :: {has(f.Ast.Nodes, k)} old(has(f.Ast.Nodes, k)) ==> has(f.Ast.Nodes, k) && f.Ast.Nodes[k] == old(f.Ast.Nodes[k])
+
+//@ func (f *fileDecorator) decorateSelectorExpr
+//@ requires maps: f.dmapsInv()
+//@ modifies map(ast.Node, dst.Node), map(dst.Node, ast.Node), map(*ast.Object, *dst.Object), map(*dst.Object, *ast.Object), map(*ast.Scope, *dst.Scope), map(*dst.Scope, *ast.Scope), newobjects
+//@ ensures maps: f.dmapsInv()
+//@ ensures error_result: err != nil ==> result == nil
+//@ ensures collapsed_type: result != nil ==> typeof(result) == type(*dst.Ident)
+//@ ensures collapsed: err == nil && result != nil ==> has(f.Dst.Nodes, n) && f.Dst.Nodes[n] == result && ref(result) != 0 && has(f.Ast.Nodes, result) && f.Ast.Nodes[result] == n && !wasAllocated(ref(result))
+//@ ensures dst_map_grows: forall k ast.Node :: {has(f.Dst.Nodes, k)} old(has(f.Dst.Nodes, k)) ==> has(f.Dst.Nodes, k) && f.Dst.Nodes[k] == old(f.Dst.Nodes[k])
+//@ ensures ast_map_grows: forall k dst.Node :: {has(f.Ast.Nodes, k)} old(has(f.Ast.Nodes, k)) ==> has(f.Ast.Nodes, k) && f.Ast.Nodes[k] == old(f.Ast.Nodes[k])
+
+//@ func (f *fileDecorator) resolvePath
+//@ modifies nothing
+//@ ensures error_result: err != nil ==> result == ""
